@@ -331,6 +331,12 @@ fn normal_form<T: NormalForm>(x: &T) -> T {
 
 /// Returns Ok(render layer applied?)
 fn check(a: Adapter, m: &MStyle) -> Result<bool, String> {
+    check_with(a, m, true)
+}
+
+/// `exclude_known`: leave the class of the open finding F26 to the value level (the finding itself is
+/// replayed with `false`, from KNOWN_FINDINGS.json)
+fn check_with(a: Adapter, m: &MStyle, exclude_known: bool) -> Result<bool, String> {
     let style = to_style(*m);
     let want = projection(a, m);
     macro_rules! layer {
@@ -351,7 +357,7 @@ fn check(a: Adapter, m: &MStyle) -> Result<bool, String> {
             if $skip_render || lib != want {
                 if !$skip_render {
                     return Err(format!(
-                        "{:?}: harness bug or library defect: the library renders the expected value of [{}] as {} = [{}], projection is [{}]",
+                        "{:?}: [{}] is rendered by the library (also from a value built by hand through its constructors) as {} which a terminal shows as [{}], expected [{}]",
                         a, m.describe(), esc($render(&exp).as_bytes()), lib.describe(), want.describe()
                     ));
                 }
@@ -370,9 +376,11 @@ fn check(a: Adapter, m: &MStyle) -> Result<bool, String> {
         Adapter::AnsiTerm => layer!(anstyle_ansi_term::to_ansi_term(style), expect_ansi_term(m), render_ansi_term, false),
         Adapter::Crossterm => layer!(anstyle_crossterm::to_crossterm(style), expect_crossterm(m), render_crossterm, false),
         Adapter::Owo => {
-            // owo-colors 4.0.0 omits the ';' after a background when no foreground is set
-            // and an effect follows (bg bright-blue + bold -> ESC[1041m): third-party defect
-            let defect = m.fg.is_none() && m.bg.is_some() && m.effects & CLASSIC != 0;
+            // owo-colors 4.0.0 (the version in the lock file, and admitted by the adapter's
+            // requirement "4.0.0") omits the ';' after a background when no foreground is set and an
+            // effect follows (bg bright-blue + bold -> ESC[1041m; fixed upstream in 4.2.2): open
+            // finding F26, excluded by construction here and replayed from KNOWN_FINDINGS.json
+            let defect = exclude_known && m.fg.is_none() && m.bg.is_some() && m.effects & CLASSIC != 0;
             layer!(anstyle_owo_colors::to_owo_style(style), expect_owo(m), render_owo, defect)
         }
         Adapter::Termcolor => layer!(anstyle_termcolor::to_termcolor_spec(style), expect_termcolor(m), render_termcolor, false),
@@ -451,7 +459,7 @@ fn check_syntect(fg: (u8, u8, u8, u8), bg: (u8, u8, u8, u8), font: u8) -> Result
 fn run(args: &Args, rep: &mut Report) {
     let tier = args.tier;
     rep.assume("what each target library can express is an explicit table in this check (projection()), taken from the public API of the library versions in the lock file: crossterm - the eight classic effects, the four further underline kinds and an underline colour; termcolor - bold/dim/italic/underline/strikethrough, brightness not required (one `intense` flag for both grounds); ansi_term - bright foreground = hue + bold, bright background = hue");
-    rep.assume("owo-colors 4.0.0 renders 'background without foreground + effect' without the ';' separator; those cases are decided at value level only");
+    rep.assume("styles with a background, no foreground and one of the eight classic effects are decided at value level only for owo-colors: the pinned owo-colors 4.0.0 renders them without the ';' separator (open known finding F26, replayed separately)");
     let colors = all_colors();
     let n = rt::workers();
     let cover_effects: Vec<u16> = std::iter::once(0).chain((0..12).map(|i| 1u16 << i)).chain([4095, sgr::BOLD | sgr::UNDERLINE]).collect();
@@ -486,7 +494,7 @@ fn run(args: &Args, rep: &mut Report) {
                                     acc.nontrivial_distinct();
                                 }
                                 if !rendered {
-                                    acc.class("third_party_render_defect(value-level only)");
+                                    acc.class("excluded:known-finding-F26(owo-colors 4.0.0, background + effect without foreground; value level only)");
                                 }
                                 acc.sample(|| json!({"adapter": format!("{:?}", a), "style": m.describe()}));
                             }
@@ -535,7 +543,7 @@ fn run(args: &Args, rep: &mut Report) {
                                 acc.nontrivial_distinct();
                             }
                             if !rendered {
-                                acc.class("third_party_render_defect(value-level only)");
+                                acc.class("excluded:known-finding-F26(owo-colors 4.0.0, background + effect without foreground; value level only)");
                             }
                         }
                         Err(msg) => {
@@ -594,7 +602,7 @@ fn run(args: &Args, rep: &mut Report) {
             |(m, a), acc: &mut Acc| match check(*a, m) {
                 Ok(rendered) => {
                     if !rendered {
-                        acc.class("third_party_render_defect(value-level only)");
+                        acc.class("excluded:known-finding-F26(owo-colors 4.0.0, background + effect without foreground; value level only)");
                     }
                     let nt = (m.fg.is_some() || m.bg.is_some() || m.ul.is_some()) && m.effects != 0;
                     Verdict::ok(nt.then(|| digest_str(&format!("{:?}{}", a, m.describe()))))
@@ -622,7 +630,7 @@ fn run(args: &Args, rep: &mut Report) {
     );
 }
 
-fn replay(_sub: &str, case: &Value) -> Result<(), String> {
+fn replay(sub: &str, case: &Value) -> Result<(), String> {
     if let Some(s) = case.get("syntect") {
         let q = |v: &Value| {
             let a: Vec<u8> = v.as_array().map(|a| a.iter().map(|x| x.as_u64().unwrap_or(0) as u8).collect()).unwrap_or_default();
@@ -638,7 +646,7 @@ fn replay(_sub: &str, case: &Value) -> Result<(), String> {
         return Ok(());
     }
     let a: Adapter = serde_json::from_value(case["adapter"].clone()).map_err(|e| format!("bad case: {e}"))?;
-    check(a, &m).map(|_| ())
+    check_with(a, &m, sub != "known-finding").map(|_| ())
 }
 
 fn main() {
